@@ -551,18 +551,25 @@ func isDigitRunSkipSafe(re *syntax.Regexp) bool {
 	case syntax.OpPlus, syntax.OpStar:
 		// + or * on a digit class: greedy unbounded → safe to skip
 		if len(re.Sub) == 1 && re.Sub[0].Op == syntax.OpCharClass {
-			return isDigitOnlyClass(re.Sub[0].Rune)
+			return isFullDigitClass(re.Sub[0].Rune)
 		}
 		return false
 	case syntax.OpRepeat:
 		// {N,} with no upper bound (Max == -1): greedy unbounded → safe
 		if re.Max == -1 && len(re.Sub) == 1 && re.Sub[0].Op == syntax.OpCharClass {
-			return isDigitOnlyClass(re.Sub[0].Rune)
+			return isFullDigitClass(re.Sub[0].Rune)
 		}
 		return false
 	default:
 		return false
 	}
+}
+
+// isFullDigitClass reports whether the class is exactly [0-9]. The digit-run skip
+// steps over every byte in '0'..'9', which is only sound when the leading class
+// accepts all of them: for [0-5]+ a run such as "67123" contains a later start.
+func isFullDigitClass(runes []rune) bool {
+	return len(runes) == 2 && runes[0] == '0' && runes[1] == '9'
 }
 
 // hasUnboundedRepeat reports whether re contains a *, + or {n,} repetition, not
